@@ -269,7 +269,7 @@ pub fn run(ctx: &Ctx, acc: &mut Acc) {
     let dir = std::env::temp_dir().join(format!("scc-verif-c17w-{}-{}", ctx.shard, std::process::id()));
     let _ = std::fs::create_dir_all(&dir);
     let nproc = if ctx.quick() { 4 } else { 12 };
-    let max_cases: u64 = if ctx.quick() { 60 } else { 1_000_000 };
+    let max_cases: u64 = if ctx.quick() { 160 } else { 1_000_000 };
     let mut i = 0u64;
     let mut previous: Vec<String> = Vec::new();
     // corpus first
